@@ -53,12 +53,13 @@ class Store:
 
 
 def source_text(sp: str, nm: str, ver: int) -> str:
-    return f"{sp}/{nm}@{ver}|{{{{ g }}}}"
+    return f"{sp}/{nm}@{ver}|{{{{ g }}}}|{{{{ eg }}}}"
 
 
 def expected_text(o: dict) -> str:
+    # `eg` is an environment global: every render sees it, whatever the cache did
     sp, nm = o["key"]
-    return f"{sp}/{nm}@{o['ver']}|" + ("" if o["glob"] == "g0" else o["glob"])
+    return f"{sp}/{nm}@{o['ver']}|" + ("" if o["glob"] == "g0" else o["glob"]) + "|E"
 
 
 def make_inner(store: Store, fresh: bool):
@@ -163,7 +164,7 @@ def replay(hist: list[dict], variant: str, cfg: dict, scratch: Path) -> dict | N
         shutil.rmtree(root, ignore_errors=True)
         root.mkdir(parents=True)
     loader = build_loader(variant, store, cfg, root)
-    env = Environment(loader=loader)
+    env = Environment(loader=loader, globals={"eg": "E"})
     coros: dict[int, object] = {}
     atomic_async = variant in ("dict", "fs")
     done_async: dict[int, dict] = {}
